@@ -583,15 +583,36 @@ impl C14 {
                     }
                 }
             }
-            match probes(expr) {
-                Ok(out) => {
-                    for (i, (name, r)) in out.iter().enumerate() {
-                        judge!(name, r, reference.get(i).map(|x| &x.1));
+            // the same calls twice: a fault that a call reported must not be hidden from the next, identical call
+            let mut first: Option<ProbeOut> = None;
+            for _again in 0..2 {
+                match probes(expr) {
+                    Ok(out) => {
+                        for (i, (name, r)) in out.iter().enumerate() {
+                            judge!(name, r, reference.get(i).map(|x| &x.1));
+                        }
+                        if let Some(f) = &first {
+                            for ((name, r1), (_, r2)) in f.iter().zip(out.iter()) {
+                                if let (Err(e1), Ok(_)) = (r1, r2) {
+                                    if names_file(e1, private, case) && !e1.starts_with("Pattern match/replacement failure") {
+                                        res.viols.push((
+                                            format!("fault-hidden-after-first-report:{}:{}", kind, case.fault.kind()),
+                                            format!("{} reported the broken file ({}) and the next, identical call returned Ok although {} is still {}", name, e1.lines().next().unwrap_or("").chars().take(160).collect::<String>(), case.file, case.fault.kind()),
+                                        ));
+                                        break;
+                                    }
+                                }
+                            }
+                        }
+                        first = Some(out);
+                    }
+                    Err((w, p)) => {
+                        panic_viol!("fault", w, &p);
+                        return res;
                     }
                 }
-                Err((w, p)) => {
-                    panic_viol!("fault", w, &p);
-                    return res;
+                if !res.viols.is_empty() {
+                    break;
                 }
             }
         }
@@ -786,7 +807,7 @@ impl Property for C14 {
         (1500, 40000)
     }
     fn rule(&self) -> String {
-        "cases = (configuration, rule file reachable from it, fault kind, fault injected before the first load or after a successful load, CheckRuleFiles mode while faulty and an optional switch of it, repair mode, probe expression) on a private copy of Rules/; enumerated part = every reachable file of the default configuration x 8 basic fault kinds x both timings, plus the missing rules directory; oracle = no call panics; an Err returned while the fault is in place (and not returned by the reference too) names the faulted file; after the repair (bytes restored with a newer mtime and CheckRuleFiles=All, or set_rules_dir to the pristine / same directory) set_mathml, speech, overview, braille, two navigation moves and navigation braille equal a fresh session on the pristine rules; non-trivial = the fault was seen (an Err, or an output that differs from the reference, between fault and repair)".into()
+        "cases = (configuration, rule file reachable from it, fault kind, fault injected before the first load or after a successful load, CheckRuleFiles mode while faulty and an optional switch of it, repair mode, probe expression) on a private copy of Rules/; enumerated part = every reachable file of the default configuration x 8 basic fault kinds x both timings, plus the missing rules directory; oracle = no call panics; an Err returned while the fault is in place (and not returned by the reference too) names the faulted file; the calls are made twice and a call that reported the broken file does not return Ok the second time; after the repair (bytes restored with a newer mtime and CheckRuleFiles=All, or set_rules_dir to the pristine / same directory) set_mathml, speech, overview, braille, two navigation moves and navigation braille equal a fresh session on the pristine rules; non-trivial = the fault was seen (an Err, or an output that differs from the reference, between fault and repair)".into()
     }
     fn assumptions(&self) -> Vec<String> {
         vec![
